@@ -23,7 +23,7 @@ EXPLANATION = (
     "assumptions | is_sat | is_valid | is_unsat, each solve sees exactly the live assertions (+ the one-shot "
     "formula), solver.assertions equals the live list at the end and, in a second pass, after every step, and "
     "the shortcuts return the truth the back-end's answer implies (R2).  Every concrete solver class of the "
-    "package decorates each assertion-stack method it implements with @clear_pending_pop (R3).")
+    "package decorates each assertion-stack method it implements with @clear_pending_pop (R3).  Portfolio, a concrete tracking solver whose back-end needs no library, interpreted as an incremental solver: the formula each solve hands on is the conjunction of the live assertions (R4).  Ordering rule over every Solver subclass, native wrappers included: a method that has set pending_pop = True reaches no @clear_pending_pop method or property of the same object before it returns (R5, flow graph + resolved self-calls).  Every API sequence also ends with the solver used as a context manager: __exit__ lets an exception of the with-block through; push / pop are also called with the level count as a keyword.")
 NOT_DECIDED = ["sequences longer than the bound (3 in the quick tier, 4 in the thorough tier)",
                "native solver bindings behind the converters (not installed; the probe stands for them)"]
 
@@ -54,6 +54,28 @@ def _has_decorator(f, name):
         t = d.func if isinstance(d, ast.Call) else d
         if attr_tail(t) == name:
             return True
+    return False
+
+
+def _reaches_clear(repo, q, name, seen):
+    """Does self.<name> (resolved through the MRO of q) run under @clear_pending_pop, or call - on self - something that does?"""
+    if (q, name) in seen:
+        return False
+    seen.add((q, name))
+    dc, f = repo.find_method(q, name)
+    if f is None:
+        return False
+    if _has_decorator(f, "clear_pending_pop"):
+        return True
+    for c in calls_in(f):
+        fn = c.func
+        if isinstance(fn, ast.Attribute) and norm(fn.value) == "self" and _reaches_clear(repo, q, fn.attr, seen):
+            return True
+    for sub in ast.walk(f):
+        if isinstance(sub, ast.Attribute) and norm(sub.value) == "self" and isinstance(sub.ctx, ast.Load) and sub.attr != name:
+            dc2, f2 = repo.find_method(q, sub.attr)
+            if f2 is not None and any(norm(d) == "property" for d in f2.decorator_list) and _has_decorator(f2, "clear_pending_pop"):
+                return True
     return False
 
 
@@ -108,6 +130,74 @@ def run(ctx):
             else:
                 ctx.finding(rs, "portfolio-stack|%s" % ",".join(seq), "%s: %s" % (tag, detail), "pysmt/solvers/portfolio.py")
         ctx.floor(rs, 8)
+
+    if ctx.want("R5"):
+        # Ordering rule, over every Solver subclass (native wrappers included - their back-ends cannot be interpreted):
+        # once a method has set `self.pending_pop = True` (the level it pushed is to be popped by the NEXT command), it
+        # must not itself reach - directly or through other methods of the object - a method or property under
+        # @clear_pending_pop before it returns: that call would execute the deferred pop at once, under the feet of the
+        # method, and whatever it asserts afterwards stays asserted at the caller's level.
+        rs = ctx.rule("R5", "a method that defers a pop (pending_pop = True) reaches no @clear_pending_pop method of the same object afterwards")
+        n_sites = 0
+        for q in [SOLVER] + list(repo.subclasses(SOLVER, strict=True)):
+            ci = repo.classes[q]
+            for nm in ci.order:
+                f = ci.own_func(nm)
+                if f is None:
+                    continue
+                sets = [st for st in ast.walk(f) if isinstance(st, ast.Assign) and any(norm(t) == "self.pending_pop" for t in st.targets)
+                        and isinstance(st.value, ast.Constant) and st.value.value is True]
+                if not sets:
+                    continue
+                cfg = CFG(f)
+                for st in sets:
+                    n_sites += 1
+                    src = [n for n in cfg.nodes if n.ast is st]
+                    if not src:
+                        rs.unrec("%s.%s: assignment not found in the flow graph" % (q, nm))
+                        continue
+                    after = cfg.reachable(src[0].id)
+                    after.discard(src[0].id)
+                    hit = None
+                    for nid in sorted(after):
+                        node = cfg.nodes[nid]
+                        if node.ast is None or node.kind in ("entry", "return_exit", "raise_exit"):
+                            continue
+                        tops = [node.ast] if not isinstance(node.ast, (ast.If, ast.While, ast.For, ast.Try, ast.With)) else \
+                               [getattr(node.ast, "test", None) or getattr(node.ast, "iter", None)]
+                        for top in tops:
+                            if top is None:
+                                continue
+                            for sub in ast.walk(top):
+                                name = None
+                                if isinstance(sub, ast.Call) and isinstance(sub.func, ast.Attribute) and norm(sub.func.value) == "self":
+                                    name = sub.func.attr
+                                elif isinstance(sub, ast.Attribute) and norm(sub.value) == "self" and isinstance(sub.ctx, ast.Load):
+                                    name = sub.attr
+                                if name and _reaches_clear(repo, q, name, set()):
+                                    hit = (name, sub)
+                                    break
+                            if hit:
+                                break
+                        if hit:
+                            break
+                    if hit:
+                        ctx.finding(rs, "%s.%s|after-pending|%s" % (q, nm, hit[0]),
+                                    "%s.%s sets pending_pop = True and then reaches self.%s, which runs under @clear_pending_pop: the level just "
+                                    "pushed is popped at once and what is asserted afterwards stays at the caller's level"
+                                    % (q.split(".")[-1], nm, hit[0]), method_loc(repo, q, hit[1]))
+                    else:
+                        rs.ok({"method": "%s.%s" % (q.split(".")[-1], nm), "after pending_pop = True": "no @clear_pending_pop method reached"})
+        # positive control
+        ctl_src = "class X:\n def m(self):\n  self.push()\n  self.pending_pop = True\n  self.add_assertion(1)\n"
+        ctl = ast.parse(ctl_src).body[0].body[0]
+        ccfg = CFG(ctl)
+        cst = [n for n in ccfg.nodes if isinstance(n.ast, ast.Assign)][0]
+        rs.control = any(isinstance(ccfg.nodes[i].ast, ast.Expr) and "add_assertion" in ast.unparse(ccfg.nodes[i].ast) for i in ccfg.reachable(cst.id))
+        if not rs.control:
+            ctx.error("R5", "positive control not matched")
+        ctx.analysed["pending_pop_sites"] = n_sites
+        ctx.floor(rs, 6)
 
     if ctx.want("R3"):
         rs = ctx.rule("R3", "deferred-pop discipline: stack methods of concrete solvers are decorated")
